@@ -470,6 +470,10 @@ class TBRMatchedMarkets:
     Returns:
       False if any specified constraint is not satisfied.
     """
+    if not treatment_geos or not control_geos:
+      # A design needs both groups; the ratios below are undefined otherwise.
+      return False
+
     if self.parameters.volume_ratio_tolerance is not None:
       volume_ratio = (
           self.data.aggregate_geo_share(control_geos)/
